@@ -7,7 +7,7 @@ META = {
     'technique': 'Lean 4 theorems over the plugin registry REGENERATED from /repo on every run (values dumped by importing the three list packages + go/ast '
                  'cross-check of the name maps), kernel-checked over the whole table x all 60 capability tuples; general theorems (all plugin lists, all name tables) '
                  'for the validator, the filter and the auto-enabling loop; exhaustive correspondence of the Lean model with the real functions',
-    'design_ref': 'DESIGN.md §5 C19',
+    'design_ref': 'DESIGN.md §4 (section of C19), §5 (defects), §7 (seeded changes)',
     'text': 'translator/cmd/regdump rebuilds against the working tree, calls every registered initialiser and writes lean/Scalibr/Gen/Registry.lean (name tables of '
             'filesystem extractors, standalone extractors, detectors: key -> plugins with Name, Requirements, RequiredExtractors) plus the source-level view of the same '
             'tables. Kernel-checked: ValidateRequirements = satisfied on all 3600 (requirement, capability) pairs; FilterByCapabilities = filter(satisfied) for all lists; a scan '
